@@ -659,3 +659,289 @@ pub fn generate_cms_into(ctx: &mut Ctx, seeds: &[(&'static str, Vec<u8>)], mutat
         }
     }
 }
+
+//============ crld: Crl::decode against Model/CrlDer.lean ===========================================
+
+use rpki::repository::crl::Crl;
+
+pub fn show_crl(c: &Crl) -> String {
+    let entries: Vec<String> = c.revoked_certs().iter().map(|e| format!("{}@{}", hex(&e.user_certificate.into_array()), e.revocation_date.timestamp())).collect();
+    format!("ok {} {} {} {} {} {} {}", name_hex(c.issuer()), c.this_update().timestamp(), c.next_update().timestamp(),
+        hex(c.authority_key_identifier().as_slice()), hex(&c.crl_number().into_array()), entries.len(),
+        if entries.is_empty() { "-".to_string() } else { entries.join(",") })
+}
+
+pub fn exec_crl(toks: &[&str]) -> String {
+    if toks.len() != 2 { return "bad-op".into() }
+    let Some(data) = unhex(toks[1]) else { return "bad-op".into() };
+    match Crl::decode(Bytes::from(data)) {
+        Ok(c) => show_crl(&c),
+        Err(_) => "err".into(),
+    }
+}
+
+pub fn structured_crl(orig: &[u8]) -> Vec<Vec<u8>> {
+    let mut out: Vec<Vec<u8>> = Vec::new();
+    let Some(base) = der::parse_nodes(orig) else { return out };
+    // TBS children: [version, signature, issuer, thisUpdate, nextUpdate, (revoked)?, [0] extensions]
+    let n_tbs = { let mut b = base.clone(); tbs_kids(&mut b).map(|k| k.len()).unwrap_or(0) };
+    if n_tbs < 6 { return out }
+    let has_revoked = n_tbs >= 7;
+    let ext_at = n_tbs - 1;
+    let e = |o: &[u64], crit: Option<bool>, v: Vec<u8>| pki::ext(o, crit.unwrap_or(false), &v);
+    let aki = |n: usize| der::seq(&[der::ctx(0, false, &vec![7u8; n])]);
+    let ext_lists: Vec<Vec<Vec<u8>>> = vec![
+        vec![e(pki::CE_AKI, None, aki(20)), e(pki::CE_CRLNUM, None, der::uint_u64(5))],
+        vec![e(pki::CE_CRLNUM, None, der::uint_u64(5)), e(pki::CE_AKI, None, aki(20))],
+        vec![e(pki::CE_AKI, Some(true), aki(20)), e(pki::CE_CRLNUM, Some(true), der::uint_u64(5))],
+        vec![e(pki::CE_AKI, None, aki(20))], vec![e(pki::CE_CRLNUM, None, der::uint_u64(5))], vec![],
+        vec![e(pki::CE_AKI, None, aki(20)), e(pki::CE_AKI, None, aki(20)), e(pki::CE_CRLNUM, None, der::uint_u64(5))],
+        vec![e(pki::CE_AKI, None, aki(20)), e(pki::CE_CRLNUM, None, der::uint_u64(5)), e(pki::CE_CRLNUM, None, der::uint_u64(6))],
+        vec![e(pki::CE_AKI, None, aki(19)), e(pki::CE_CRLNUM, None, der::uint_u64(5))],
+        vec![e(pki::CE_AKI, None, der::seq(&[])), e(pki::CE_CRLNUM, None, der::uint_u64(5))],
+        vec![e(pki::CE_AKI, None, der::seq(&[der::ctx(0, false, &[7u8; 20]), der::ctx(2, false, &[1])])), e(pki::CE_CRLNUM, None, der::uint_u64(5))],
+        vec![e(pki::CE_AKI, None, der::cat(&[aki(20), vec![0xff]])), e(pki::CE_CRLNUM, None, der::cat(&[der::uint_u64(5), vec![0x05, 0x00]]))],
+        vec![e(pki::CE_AKI, None, aki(20)), e(pki::CE_CRLNUM, None, der::uint(&[0x7f; 20]))],
+        vec![e(pki::CE_AKI, None, aki(20)), e(pki::CE_CRLNUM, None, der::tlv(0x02, &[0x7f; 21]))],
+        vec![e(pki::CE_AKI, None, aki(20)), e(pki::CE_CRLNUM, None, der::tlv(0x02, &[0x80]))],
+        vec![e(pki::CE_AKI, None, aki(20)), e(pki::CE_CRLNUM, None, der::uint_u64(0))],
+        vec![e(pki::CE_AKI, None, aki(20)), e(pki::CE_CRLNUM, None, der::uint_u64(5)), e(&[2, 5, 29, 28], None, der::seq(&[]))],
+        vec![e(pki::CE_AKI, None, aki(20)), e(pki::CE_CRLNUM, None, der::uint_u64(5)), e(&[2, 5, 29, 28], Some(true), der::seq(&[]))],
+    ];
+    for l in &ext_lists {
+        let mut t = base.clone();
+        if let (Some(k), Some(n)) = (tbs_kids(&mut t), one(&der::ctx(0, true, &der::seq(l)))) { k[ext_at] = n; out.push(der::encode_nodes(&t)); }
+    }
+    { let mut t = base.clone(); if let Some(k) = tbs_kids(&mut t) { k.remove(ext_at); out.push(der::encode_nodes(&t)); } }
+    { let mut t = base.clone(); if let Some(k) = tbs_kids(&mut t) { k.push(prim(0x05, &[])); out.push(der::encode_nodes(&t)); } }
+    // revoked certificates
+    let entry = |s: &[u8], t: Vec<u8>| der::seq(&[der::uint(s), t]);
+    let lists: Vec<Option<Vec<u8>>> = vec![
+        None, Some(der::seq(&[])),
+        Some(der::seq(&[entry(&[1], der::utc_time(2020, 1, 1, 0, 0, 0))])),
+        Some(der::seq(&[entry(&[1], der::utc_time(2020, 1, 1, 0, 0, 0)), entry(&[1], der::gen_time(2050, 1, 1, 0, 0, 0)), entry(&[0], der::utc_time(1950, 1, 1, 0, 0, 0))])),
+        Some(der::seq(&[entry(&[0x7f; 20], der::utc_time(2020, 1, 1, 0, 0, 0))])),
+        Some(der::seq(&[der::seq(&[der::tlv(0x02, &[0x7f; 21]), der::utc_time(2020, 1, 1, 0, 0, 0)])])),
+        Some(der::seq(&[der::seq(&[der::uint(&[5]), der::utc_time(2020, 1, 1, 0, 0, 0), der::seq(&[])])])),
+        Some(der::seq(&[der::seq(&[der::uint(&[5])])])),
+        Some(der::seq(&[der::seq(&[der::uint(&[5]), der::gen_time(2023, 2, 29, 0, 0, 0)])])),
+        Some(der::seq(&[entry(&[5], der::utc_time(2020, 1, 1, 0, 0, 0)), der::null()])),
+        Some(der::set_raw(&[entry(&[5], der::utc_time(2020, 1, 1, 0, 0, 0))])),
+    ];
+    for l in &lists {
+        let mut t = base.clone();
+        if let Some(k) = tbs_kids(&mut t) {
+            if has_revoked { k.remove(5); }
+            if let Some(v) = l { if let Some(n) = one(v) { k.insert(5, n); } }
+            out.push(der::encode_nodes(&t));
+        }
+    }
+    // version, algorithm identifiers (inner / outer / both), times
+    for v in [der::uint_u64(0), der::uint_u64(2), der::tlv(0x02, &[0, 1]), der::ctx(0, true, &der::uint_u64(1))] {
+        let mut t = base.clone();
+        if let (Some(k), Some(n)) = (tbs_kids(&mut t), one(&v)) { k[0] = n; out.push(der::encode_nodes(&t)); }
+    }
+    { let mut t = base.clone(); if let Some(k) = tbs_kids(&mut t) { k.remove(0); out.push(der::encode_nodes(&t)); } }
+    for a in [der::seq(&[der::oid(pki::SHA256_RSA)]), der::seq(&[der::oid(pki::SHA256_RSA), der::null()]), der::seq(&[der::oid(pki::RSA), der::null()])] {
+        let mut t = base.clone();
+        if let (Some(k), Some(n)) = (tbs_kids(&mut t), one(&a)) { k[1] = n; out.push(der::encode_nodes(&t)); }
+        let mut t = base.clone();
+        if let (Some(k), Some(n)) = (t.get_mut(0).and_then(|c| c.kids.as_mut()), one(&a)) { if k.len() > 1 { k[1] = n; out.push(der::encode_nodes(&t)); } }
+        let mut t = base.clone();
+        if let Some(n) = one(&a) {
+            if let Some(k) = tbs_kids(&mut t) { k[1] = n.clone(); }
+            if let Some(k) = t.get_mut(0).and_then(|c| c.kids.as_mut()) { if k.len() > 1 { k[1] = n; } }
+            out.push(der::encode_nodes(&t));
+        }
+    }
+    for (i, v) in [(3usize, der::gen_time(2049, 12, 31, 23, 59, 59)), (3, der::utc_time(1950, 1, 1, 0, 0, 0)), (4, der::gen_time(9999, 12, 31, 23, 59, 59)),
+                   (4, der::gen_time(2023, 2, 29, 0, 0, 0)), (4, der::null()), (3, der::tlv(0x37, &der::utc_time(2020, 1, 1, 0, 0, 0)[2..]))] {
+        let mut t = base.clone();
+        if let (Some(k), Some(n)) = (tbs_kids(&mut t), one(&v)) { k[i] = n; out.push(der::encode_nodes(&t)); }
+    }
+    { let mut d = orig.to_vec(); d.extend_from_slice(&[0x05, 0x00]); out.push(d); }
+    out
+}
+
+pub fn generate_crl_into(ctx: &mut Ctx, seeds: &[(&'static str, Vec<u8>)], mutate: &dyn Fn(&mut Rng, &[u8], &[Vec<u8>]) -> Vec<u8>,
+                         systematic: &dyn Fn(&[u8]) -> Vec<Vec<u8>>) {
+    let mut rng = Rng::new(ctx.seed ^ 0xC71D);
+    let all: Vec<Vec<u8>> = seeds.iter().map(|s| s.1.clone()).collect();
+    let per = if ctx.tier_thorough { 3000 } else { 300 };
+    for (entry, data) in seeds {
+        if *entry != "crl" { continue }
+        ctx.case(&format!("crld {}", hex(data)));
+        for d in structured_crl(data) { ctx.case(&format!("crld {}", hex(&d))); }
+        if data.len() < 3000 { for d in systematic(data) { ctx.case(&format!("crld {}", hex(&d))); } }
+        for _ in 0..per {
+            let mut d = mutate(&mut rng, data, &all);
+            if rng.chance(1, 5) { d = mutate(&mut rng, &d, &all); }
+            if d.len() > 20_000 { d.truncate(20_000); }
+            ctx.case(&format!("crld {}", hex(&d)));
+        }
+    }
+}
+
+//============ idcd / smsgd: IdCert::decode and SignedMessage::decode (strict) against Model/SigMsgDer.lean =====
+
+use rpki::ca::idcert::IdCert;
+use rpki::ca::sigmsg::SignedMessage;
+
+pub fn exec_idc(toks: &[&str]) -> String {
+    if toks.len() != 2 { return "bad-op".into() }
+    let Some(data) = unhex(toks[1]) else { return "bad-op".into() };
+    match IdCert::decode(Bytes::from(data)) {
+        Ok(c) => format!("ok {} {} {} {} {} {} {} {}", hex(&c.serial_number().into_array()), name_hex(c.subject()),
+            c.validity().not_before().timestamp(), c.validity().not_after().timestamp(),
+            if c.public_key().allow_rpki_cert() { "r" } else { "e" }, hex(c.public_key().key_identifier().as_slice()),
+            hex(c.subject_key_identifier().as_slice()), opt_hex(c.authority_key_id().as_ref().map(|k| k.as_slice()))),
+        Err(_) => "err".into(),
+    }
+}
+
+pub fn exec_smsg(toks: &[&str]) -> String {
+    if toks.len() != 2 { return "bad-op".into() }
+    let Some(data) = unhex(toks[1]) else { return "bad-op".into() };
+    match SignedMessage::decode(Bytes::from(data), true) {
+        Ok(m) => format!("ok {}", hex(&m.content().to_bytes())),
+        Err(_) => "err".into(),
+    }
+}
+
+pub fn structured_idc(orig: &[u8]) -> Vec<Vec<u8>> {
+    let mut out = Vec::new();
+    let Some(base) = der::parse_nodes(orig) else { return out };
+    let n_tbs = { let mut b = base.clone(); tbs_kids(&mut b).map(|k| k.len()).unwrap_or(0) };
+    if n_tbs < 7 { return out }
+    let e = |o: &[u64], crit: Option<bool>, v: Vec<u8>| { let mut p = vec![der::oid(o)]; if let Some(c) = crit { p.push(der::boolean(c)); } p.push(der::octets(&v)); der::seq(&p) };
+    let ski = der::octets(&[9u8; 20]);
+    let aki = |parts: Vec<Vec<u8>>| der::seq(&parts);
+    let k0 = der::ctx(0, false, &[7u8; 20]);
+    let lists: Vec<Vec<Vec<u8>>> = vec![
+        vec![e(pki::CE_SKI, None, ski.clone())],
+        vec![],
+        vec![e(pki::CE_SKI, Some(true), ski.clone()), e(pki::CE_SKI, None, ski.clone())],
+        vec![e(pki::CE_SKI, None, der::octets(&[9u8; 19]))],
+        vec![e(pki::CE_BC, Some(true), der::seq(&[])), e(pki::CE_SKI, None, ski.clone())],
+        vec![e(pki::CE_BC, None, der::seq(&[der::boolean(true), der::uint_u64(3)])), e(pki::CE_SKI, None, ski.clone())],
+        vec![e(pki::CE_BC, None, der::seq(&[der::uint_u64(3)])), e(pki::CE_SKI, None, ski.clone())],
+        vec![e(pki::CE_BC, None, der::seq(&[der::boolean(true), der::uint(&[0xff; 8])])), e(pki::CE_SKI, None, ski.clone())],
+        vec![e(pki::CE_BC, None, der::seq(&[der::boolean(true), der::uint(&[1, 0, 0, 0, 0, 0, 0, 0, 0])])), e(pki::CE_SKI, None, ski.clone())],
+        vec![e(pki::CE_BC, None, der::seq(&[der::boolean(true), der::tlv(0x02, &[0x80])])), e(pki::CE_SKI, None, ski.clone())],
+        vec![e(pki::CE_BC, None, der::seq(&[der::boolean(true), der::uint_u64(1), der::null()])), e(pki::CE_SKI, None, ski.clone())],
+        vec![e(pki::CE_BC, None, der::seq(&[der::boolean(true)])), e(pki::CE_BC, None, der::seq(&[])), e(pki::CE_SKI, None, ski.clone())],
+        vec![e(pki::CE_SKI, None, ski.clone()), e(pki::CE_AKI, None, aki(vec![k0.clone()]))],
+        vec![e(pki::CE_SKI, None, ski.clone()), e(pki::CE_AKI, None, aki(vec![]))],
+        vec![e(pki::CE_SKI, None, ski.clone()), e(pki::CE_AKI, None, aki(vec![k0.clone()])), e(pki::CE_AKI, None, aki(vec![]))],
+        vec![e(pki::CE_SKI, None, ski.clone()), e(pki::CE_AKI, None, aki(vec![])), e(pki::CE_AKI, None, aki(vec![der::ctx(0, false, &[8u8; 20])]))],
+        vec![e(pki::CE_SKI, None, ski.clone()), e(pki::CE_AKI, None, aki(vec![k0.clone(), der::ctx(1, true, &der::ctx(4, true, &pki::name("x"))), der::ctx(2, false, &[1])]))],
+        vec![e(pki::CE_SKI, None, ski.clone()), e(pki::CE_AKI, None, aki(vec![der::ctx(1, true, &der::null()), k0.clone()]))],
+        vec![e(pki::CE_SKI, None, ski.clone()), e(pki::CE_AKI, None, aki(vec![k0.clone(), vec![0x30, 0x80, 0x00, 0x00]]))],
+        vec![e(pki::CE_SKI, None, ski.clone()), e(pki::CE_AKI, None, aki(vec![k0.clone(), vec![0x30, 0x80, 0x00]]))],
+        vec![e(pki::CE_SKI, None, ski.clone()), e(pki::CE_AKI, None, aki(vec![der::ctx(0, false, &[7u8; 19])]))],
+        vec![e(pki::CE_SKI, None, ski.clone()), e(pki::CE_AKI, None, aki(vec![der::ctx(0, true, &der::octets(&[7u8; 20]))]))],
+        vec![e(pki::CE_SKI, None, ski.clone()), e(pki::CE_KU, Some(true), der::bits(7, &[0x80])), e(&[1, 2, 3], Some(true), vec![0xff])],
+        vec![e(pki::CE_SKI, None, der::cat(&[ski.clone(), vec![1, 2, 3]]))],
+    ];
+    for l in &lists {
+        let mut t = base.clone();
+        if let (Some(k), Some(n)) = (tbs_kids(&mut t), one(&der::ctx(3, true, &der::seq(l)))) {
+            let at = k.len() - 1;
+            if k[at].tag == 0xa3 { k[at] = n; } else { k.push(n); }
+            out.push(der::encode_nodes(&t));
+        }
+    }
+    { let mut t = base.clone(); if let Some(k) = tbs_kids(&mut t) { let at = k.len() - 1; if k[at].tag == 0xa3 { k.remove(at); out.push(der::encode_nodes(&t)); } } }
+    { let mut t = base.clone(); if let Some(k) = tbs_kids(&mut t) { k.push(prim(0x05, &[])); out.push(der::encode_nodes(&t)); } }
+    for a in [der::seq(&[der::oid(pki::SHA256_RSA)]), der::seq(&[der::oid(pki::RSA), der::null()])] {
+        let mut t = base.clone();
+        if let (Some(k), Some(n)) = (tbs_kids(&mut t), one(&a)) { k[2] = n; out.push(der::encode_nodes(&t)); }
+        let mut t = base.clone();
+        if let (Some(k), Some(n)) = (t.get_mut(0).and_then(|c| c.kids.as_mut()), one(&a)) { if k.len() > 1 { k[1] = n; out.push(der::encode_nodes(&t)); } }
+    }
+    out
+}
+
+/// SignedData children of a signed message: [version, digestAlgorithms, encapContentInfo, [0] certificates, [1] crls, signerInfos]
+pub fn structured_smsg(orig: &[u8]) -> Vec<Vec<u8>> {
+    let mut out = Vec::new();
+    let Some(base) = der::parse_nodes(orig) else { return out };
+    { let mut t = base.clone(); if sd_kids(&mut t).map(|k| k.len()).unwrap_or(0) < 6 { return out } }
+    // the embedded certificate and CRL in their hand-made variations
+    let (cert_der, crl_der) = {
+        let mut t = base.clone();
+        let k = sd_kids(&mut t).unwrap();
+        (k[3].kids.as_ref().and_then(|c| c.first()).map(|c| der::encode_nodes(std::slice::from_ref(c))).unwrap_or_default(),
+         k[4].kids.as_ref().and_then(|c| c.first()).map(|c| der::encode_nodes(std::slice::from_ref(c))).unwrap_or_default())
+    };
+    for v in structured_idc(&cert_der) {
+        let mut t = base.clone();
+        if let (Some(k), Some(n)) = (sd_kids(&mut t), one(&v)) { k[3].kids = Some(vec![n]); out.push(der::encode_nodes(&t)); }
+    }
+    for v in structured_crl(&crl_der) {
+        let mut t = base.clone();
+        if let (Some(k), Some(n)) = (sd_kids(&mut t), one(&v)) { k[4].kids = Some(vec![n]); out.push(der::encode_nodes(&t)); }
+    }
+    // shapes of the two sets
+    let variants: Vec<(usize, Vec<u8>)> = vec![
+        (3, der::ctx(0, true, &der::cat(&[cert_der.clone(), cert_der.clone()]))),
+        (3, der::ctx(0, true, &[])),
+        (3, der::ctx(0, true, &der::tlv(0x31, &cert_der[der::split_tlv(&cert_der).map(|x| x.0).unwrap_or(0)..]))),
+        (3, der::ctx(0, true, &der::tlv(0xa0, &cert_der[der::split_tlv(&cert_der).map(|x| x.0).unwrap_or(0)..]))),
+        (4, der::ctx(1, true, &der::cat(&[crl_der.clone(), crl_der.clone()]))),
+        (4, der::ctx(1, true, &[])),
+        (4, der::ctx(0, true, &crl_der)),
+        (2, der::seq(&[der::oid(pki::CT_ROA), der::ctx(0, true, &der::octets(b"x"))])),
+        (2, der::seq(&[der::oid(pki::CT_PROTOCOL), der::ctx(0, true, &der::tlv(0x24, &der::octets(b"x")))])),
+        (2, der::seq(&[der::oid(pki::CT_PROTOCOL)])),
+    ];
+    for (i, v) in &variants {
+        let mut t = base.clone();
+        if let (Some(k), Some(n)) = (sd_kids(&mut t), one(v)) { k[*i] = n; out.push(der::encode_nodes(&t)); }
+    }
+    { let mut t = base.clone(); if let Some(k) = sd_kids(&mut t) { k.remove(4); out.push(der::encode_nodes(&t)); } }
+    { let mut t = base.clone(); if let Some(k) = sd_kids(&mut t) { k.swap(3, 4); out.push(der::encode_nodes(&t)); } }
+    // signed attributes: foreign attributes are tolerated here, missing or duplicated ones are not
+    let cur_attrs: Vec<Node> = { let mut t = base.clone(); si_kids(&mut t).and_then(|k| k.get(3).and_then(|a| a.kids.clone())).unwrap_or_default() };
+    if cur_attrs.len() >= 3 {
+        let n = |b: Vec<u8>| one(&b).unwrap();
+        let unk = n(pki::attr(&[1, 2, 3, 4], der::null()));
+        let bst = n(pki::attr(pki::AT_BINARY_SIGNING_TIME, der::uint_u64(1_700_000_000)));
+        let weird = n(der::seq(&[der::oid(&[1, 2, 3, 4]), vec![0x30, 0x80, 0x00, 0x00]]).into_iter().collect());
+        let mut sets: Vec<Vec<Node>> = Vec::new();
+        let mut a = cur_attrs.clone(); a.push(unk.clone()); sets.push(a);
+        let mut a = cur_attrs.clone(); a.insert(0, bst.clone()); a.push(unk.clone()); sets.push(a);
+        let mut a = cur_attrs.clone(); a.push(weird); sets.push(a);
+        let mut a = cur_attrs.clone(); a.push(n(der::seq(&[der::oid(&[1, 2, 3, 4])]))); sets.push(a);
+        for i in 0..cur_attrs.len() { let mut a = cur_attrs.clone(); a.remove(i); sets.push(a); let mut a = cur_attrs.clone(); let x = a[i].clone(); a.push(x); sets.push(a); }
+        for set in sets {
+            let mut t = base.clone();
+            if let Some(k) = si_kids(&mut t) { if k.len() > 3 { k[3].kids = Some(set); out.push(der::encode_nodes(&t)); } }
+        }
+    }
+    out
+}
+
+pub fn generate_msg_into(ctx: &mut Ctx, seeds: &[(&'static str, Vec<u8>)], mutate: &dyn Fn(&mut Rng, &[u8], &[Vec<u8>]) -> Vec<u8>,
+                         systematic: &dyn Fn(&[u8]) -> Vec<Vec<u8>>) {
+    let mut rng = Rng::new(ctx.seed ^ 0x51D3);
+    let all: Vec<Vec<u8>> = seeds.iter().map(|s| s.1.clone()).collect();
+    let per = if ctx.id == "C10" { if ctx.tier_thorough { 300 } else { 30 } } else if ctx.tier_thorough { 1500 } else { 150 };
+    for (entry, data) in seeds {
+        let (op, structured): (&str, Vec<Vec<u8>>) = match *entry {
+            "idcert" => ("idcd", structured_idc(data)),
+            "sigmsg" => ("smsgd", if data.len() < 8000 { structured_smsg(data) } else { Vec::new() }),
+            _ => continue,
+        };
+        ctx.case(&format!("{} {}", op, hex(data)));
+        for d in structured { ctx.case(&format!("{} {}", op, hex(&d))); }
+        if ctx.id != "C10" && data.len() < 4000 { for d in systematic(data) { ctx.case(&format!("{} {}", op, hex(&d))); } }
+        let per = if data.len() > 8000 { per / 10 } else { per };
+        for _ in 0..per {
+            let mut d = mutate(&mut rng, data, &all);
+            if rng.chance(1, 5) { d = mutate(&mut rng, &d, &all); }
+            if d.len() > 80_000 { d.truncate(80_000); }
+            ctx.case(&format!("{} {}", op, hex(&d)));
+        }
+    }
+}
